@@ -29,7 +29,8 @@ def _prove_worker(task):
       registry[k.qualname] = k
     run = C.verify_contract(c, registry, timeout_ms)
     out = {
-      "contract": c.target, "file": c.file, "sha256": run.sha, "lines": run.segment_lines,
+      "contract": c.target, "prefix": c.prefix, "file": c.file, "sha256": run.sha,
+      "code_sha": run.code_sha, "inlined": run.inlined, "lines": run.segment_lines,
       "slice": c.slice_desc or "whole function", "paths": run.paths,
       "unsupported": run.unsupported, "assumed": sorted(run.assumed), "vacuous": run.vacuous,
       "time_s": run.time_s, "results": [], "notes": c.notes,
@@ -115,6 +116,21 @@ def _bounded_worker(task):
           "samples": samples, "distinct": len(distinct)}
 
 
+_BASELINE = []
+def _baseline():
+  """proved_baseline.json (committed; written by tools/gen_proved_baseline.py, never at check
+  time): per contract, the hash of the code its obligations were generated from and the
+  obligations discharged then."""
+  if not _BASELINE:
+    import json
+    try:
+      with open(os.path.join(common.VERIF, "proved_baseline.json")) as f:
+        _BASELINE.append(json.load(f))
+    except Exception:
+      _BASELINE.append({})
+  return _BASELINE[0]
+
+
 def run_property(report, modname, timeout_ms=None, bounded=True, procs=None,
                  bounded_limit_s=None, only=None):
   """Fills `report` (a common.Report).  Returns the list of per-contract summaries."""
@@ -158,6 +174,8 @@ def run_property(report, modname, timeout_ms=None, bounded=True, procs=None,
       report.crash("pysym crashed on %s: %s" % (p["contract"], p["crash"]))
       continue
     cov["functions"].append({"target": p["contract"], "file": p["file"], "sha256": p["sha256"],
+                             "code_sha256_with_inlined_callees": p.get("code_sha"),
+                             "inlined_callees": p.get("inlined", []),
                              "lines": p["lines"], "slice": p["slice"], "paths": p["paths"],
                              "time_s": round(p["time_s"], 2), "notes": p.get("notes", "")})
     assumed |= set(p["assumed"])
@@ -180,8 +198,23 @@ def run_property(report, modname, timeout_ms=None, bounded=True, procs=None,
         if len(samples) < 2 and r.get("smt2_head"):
           samples.append({"obligation": r["name"], "kind": r["kind"], "smt2_head": r["smt2_head"]})
       elif r["status"] == "unknown":
-        report.undecided_obligation("%s [%s]" % (r["name"], r["kind"]),
-                                    "solver: %s" % (r["detail"] or "unknown"))
+        base = _baseline().get(p.get("prefix") or "", {})
+        key = "%s|%s" % (r["name"], r["kind"].split(":")[0])
+        if key in base.get("proved", ()) and base.get("code_sha") and p.get("code_sha") and \
+            base["code_sha"] != p["code_sha"]:
+          # the obligation was discharged on the tree the baseline was taken from, the code it is
+          # generated from has changed since, and it is no longer discharged: a failed obligation
+          # without a counter-model (the solver's answer is attached)
+          rec = {"obligation": r["name"], "kind": r["kind"], "function": p["contract"],
+                 "line": r["line"], "path": r["path"], "solver": r["backend"],
+                 "verifier_output": "unknown (%s) - discharged on the baseline tree, the code under "
+                                    "contract changed since" % (r["detail"] or "no reason given"),
+                 "baseline_code_sha": base["code_sha"], "current_code_sha": p["code_sha"],
+                 "smt2_head": r.get("smt2_head"), "class": r["name"]}
+          report.violation(r["name"], rec, has_input=False)
+        else:
+          report.undecided_obligation("%s [%s]" % (r["name"], r["kind"]),
+                                      "solver: %s" % (r["detail"] or "unknown"))
       else:
         rp = r.get("replay") or {}
         rec = {"obligation": r["name"], "kind": r["kind"], "function": p["contract"],
